@@ -3,6 +3,7 @@ package main
 import (
 	"encoding/json"
 	"fmt"
+	"math"
 	"math/rand"
 	"os"
 	"strconv"
@@ -114,6 +115,72 @@ func init() {
 					}
 				}
 				writeTrace(map[string]any{"ev": "scale", "n": n, "obs": obs, "stable": stable})
+			}
+		case "repeat":
+			// the same query on the same tree, many times (the same compiled expression and freshly compiled ones): one value.
+			// The texts are decimal fractions and numbers of very different magnitude, so any sum taken in another order,
+			// any node visited twice or skipped, shows in the last bits
+			vals := []string{"0.1", "0.2", "0.3", "0.7", "19.99", "1e3", "10000000000000000", "1", "-10000000000000000", "0.05", "3.3", "1.1", "2.675", "1.005", "-0.1", "123456.789"}
+			queries := []string{"sum(//v)", "sum(/r/v[position() < 7])", "sum(//v | //w)", "string(sum(//v))", "sum(//v) div count(//v)", "sum(//v[. > 0.15])", "sum(//w/@a)",
+				"sum(//v/preceding-sibling::v)", "//v[. > 0.5]", "sum(//v) = sum(//v)", "sum($all)", "sum($rev)", "count($all | $rev)", "sum(//v/following-sibling::*[1])", "string(//v[last()] + //v[1])"}
+			for _, n := range []int{3, 5, 16, 40, 200} {
+				var b strings.Builder
+				b.WriteString("<r>")
+				for k := 0; k < n; k++ {
+					fmt.Fprintf(&b, `<v>%s</v><w a="%s">%s</w>`, vals[k%len(vals)], vals[(k*7+3)%len(vals)], vals[(k*5+1)%len(vals)])
+				}
+				b.WriteString("</r>")
+				root, err := xsel.ReadXml(strings.NewReader(b.String()))
+				if err != nil {
+					fmt.Println("scale-record: ReadXml failed:", err)
+					return 2
+				}
+				gall := xsel.MustBuildExpr("//v")
+				all, _ := xsel.ExecAsNodeset(root, &gall)
+				rev := make(xsel.NodeSet, len(all))
+				for i, c := range all {
+					rev[len(all)-1-i] = c
+				}
+				opts := []xsel.ContextApply{xsel.WithVariable("all", all), xsel.WithVariable("rev", rev)}
+				runs := 60
+				if thorough {
+					runs = 400
+				}
+				distinct := make([]int, len(queries))
+				for qi, q := range queries {
+					g, err := xsel.BuildExpr(q)
+					if err != nil {
+						fmt.Println("scale-record: BuildExpr failed:", q, err)
+						return 2
+					}
+					seen := map[string]bool{}
+					for r := 0; r < runs; r++ {
+						gg := &g
+						if r%3 == 2 {
+							fresh := xsel.MustBuildExpr(q)
+							gg = &fresh
+						}
+						o := execSafe(root, gg, opts)
+						key := ""
+						switch {
+						case o.err != nil || o.panic != nil:
+							key = fmt.Sprint("err:", o.err, o.panic)
+						default:
+							if num, ok := o.res.(xsel.Number); ok {
+								key = fmt.Sprintf("num:%x", math.Float64bits(float64(num)))
+							} else if ns, ok := o.res.(xsel.NodeSet); ok {
+								for _, c := range ns {
+									key += fmt.Sprint(c.Pos(), ",")
+								}
+							} else {
+								key = fmt.Sprintf("%T:%v", o.res, o.res)
+							}
+						}
+						seen[key] = true
+					}
+					distinct[qi] = len(seen)
+				}
+				writeTrace(map[string]any{"ev": "repeat", "n": n, "runs": runs, "queries": len(queries), "distinct": distinct})
 			}
 		case "deepjson":
 			depths := []int{1, 2, 63, 64, 65, 66, 128, 129, 1000}
